@@ -646,20 +646,32 @@ Proof.
   intros a Ha. apply splitAS_total. rewrite Forall_forall in Hws. now apply Hws.
 Qed.
 
-(** The 29.97 fps asset: video template 60060/30000 = 2.002 s, but asset.SegmentDurMS = 2000
-    (minimum over the representations): periods_1 (3600 s, not a multiple of 2.002 s) is
-    accepted; period 1 gets startNumber 1798 and presentationTimeOffset 108000000 although
-    segment 1798 starts at 1798*60060 = 107987880. *)
-Definition wave2997 : asIn :=
-  {| a_image := false; a_ts := Some 30000; a_dur := Some 60060; a_startNr := Some 0; a_tl := None |}.
-Lemma reject_witness :
-  (3600 * 1000 * 30000) mod (60060 * 1000) <> 0 /\
-  splitPeriod 1 2000 MNumber false 0 0 3541000 3601000 [wave2997] =
-    Ok [ {| pd_nr := 0; pd_start := 0; pd_as := [ {| o_pto := 0; o_startNr := Some 0; o_tl := None; o_cont := false |} ] |};
-         {| pd_nr := 1; pd_start := 3600;
-            pd_as := [ {| o_pto := 108000000; o_startNr := Some 1798; o_tl := None; o_cont := false |} ] |} ] /\
-  1798 * 60060 <> 108000000.
-Proof. split; [|split]; vm_compute; try reflexivity; discriminate. Qed.
+(** The 29.97 fps asset: video template 60060/30000 = 2.002 s.  Since commit 1baf557
+    asset.SegmentDurMS is the segment duration of the reference representation (2002 ms; it was
+    the minimum over all representations, 2000 ms from the audio track, which let periods_1
+    through with period 1 starting inside segment 1798).  No periods-per-hour value in 1..3600
+    gives a period that is a whole number of 2.002 s segments: all are rejected. *)
+Lemma In_seqZ : forall n s k, s <= k < s + Z.of_nat n -> In k (seqZ s n).
+Proof.
+  induction n; intros s k H; [lia|].
+  cbn [seqZ]. destruct (Z.eq_dec k s) as [->|Hne]; [now left|right].
+  apply IHn. lia.
+Qed.
+
+Lemma no_period_fits_2002 : forall pph, 1 <= pph <= 3600 -> (periodDurOf pph * 1000) mod 2002 <> 0.
+Proof.
+  assert (H : forallb (fun pph => negb ((periodDurOf pph * 1000) mod 2002 =? 0)) (seqZ 1 3600) = true)
+    by (vm_compute; reflexivity).
+  rewrite forallb_forall in H. intros pph Hp.
+  specialize (H pph (In_seqZ 3600 1 pph ltac:(lia))). lia.
+Qed.
+
+Theorem reject_2997 pph mode cont ast snr st now ases :
+  1 <= pph <= 3600 -> exists e, splitPeriod pph 2002 mode cont ast snr st now ases = Err e.
+Proof.
+  intros Hp. apply (splitPeriod_reject pph 2002 mode cont ast snr st now ases Hp ltac:(lia)).
+  now apply no_period_fits_2002.
+Qed.
 
 (** A listed segment that starts at or after the end of the last period (possible only when the
     availabilityTimeOffset is at least one segment duration) is in no period: ato_3, 2 s
